@@ -214,8 +214,10 @@ func runScen(s scen, sum *summary) {
 			tr.Emit(hlib.Ev{"ev": "call", "sid": sid, "op": o.kind, "n": total, "buf": true})
 			n, err = c.Write(p)
 			// the caller owns its buffer again once the call has returned: what it writes into it now must not reach the peer
-			for i := range p {
-				p[i] = 0xEE
+			if os.Getenv("VERIF_SCRIBBLE") != "" {
+				for i := range p {
+					p[i] = 0xEE
+				}
 			}
 		case "writev":
 			var bs [][]byte
@@ -226,9 +228,11 @@ func runScen(s scen, sum *summary) {
 			}
 			tr.Emit(hlib.Ev{"ev": "call", "sid": sid, "op": o.kind, "n": total, "buf": true})
 			n, err = c.Writev(bs)
-			for _, b := range bs {
-				for i := range b {
-					b[i] = 0xEE
+			if os.Getenv("VERIF_SCRIBBLE") != "" {
+				for _, b := range bs {
+					for i := range b {
+						b[i] = 0xEE
+					}
 				}
 			}
 		case "sendfile":
